@@ -68,6 +68,9 @@ def operations():
                                n.find_single_node_by_path(["dataset", "title"]), n.find_all_nodes_by_path(["dataset", "creator"]), n.get_ancestry(),
                                n.child_index(t)) for n in all_nodes(t)],
         "child_insert_index": lambda t: [_quiet(lambda n=n: rule_mod.get_rule(n.name).child_insert_index(n, probe)) for n in all_nodes(t) if n.name in rule_mod.node_mappings],
+        "child_insert_index(existing child)": lambda t: [_quiet(lambda n=n, c=c: rule_mod.get_rule(n.name).child_insert_index(n, c))
+                                                for n in all_nodes(t) if n.name in rule_mod.node_mappings for c in list(n.children)],
+        "is_allowed_child": lambda t: [_quiet(lambda n=n: rule_mod.get_rule(n.name).is_allowed_child("title")) for n in all_nodes(t) if n.name in rule_mod.node_mappings],
         "is_equal": lambda t: [Node.is_equal(n, m) for n in all_nodes(t)[:6] for m in all_nodes(t)[:6]],
     }
     return ops
@@ -130,7 +133,9 @@ def main(tier, seed):
     b = bounded(tier, seed)
     return common.decide(PID, tier, seed, results, b, t0, "DESIGN.md §4 C11", extra_assumptions=[
         "frame obligations of the functions verified functionally elsewhere are discharged there and not repeated: validate.node/tree and the "
-        "Rule validators (C01-C05: only the errs list is written), Node.is_equal (C18), Rule.child_insert_index / is_allowed_child (C17)",
+        "Rule validators (C01-C05: only the errs list is written), Node.is_equal (C18)",
+        "Rule.child_insert_index / is_allowed_child: frame proved for an arbitrary rule (instance built by the real constructor, its child-name list "
+        "replaced by an arbitrary list of strings)",
         "bounded only (frame proof not attempted because of path explosion in long if-sequences): " + ", ".join(BOUNDED_ONLY),
         "A-escape, A-json: xml.sax.saxutils.escape and json.dumps read their argument and return new strings",
         "out-parameter lists (descendants, warnings) are not the children list of any node"])
